@@ -94,6 +94,11 @@ func copyBlock(v reflect.Value, block Block) error {
 
 		namei := f.Index[0]
 		vx := reflect.ValueOf(x)
+		if !vx.IsValid() {
+			return fmt.Errorf(
+				"nil value for the mapped field: struct.%s, block.%s", f.Name, name,
+			)
+		}
 
 		if vx.Type().AssignableTo(blockType) {
 			return copyBlock(v.Field(namei), x.(Block))
